@@ -91,6 +91,15 @@ impl<A: LoadableAsset + SeekableAsset> Tap<A> {
             && (self.block_bytes_read as int) < self.current_block_size->Some_0 as int
     }
 
+//@ fn rustzx-core/src/zx/tape/tap.rs impl <A:LoadableAsset+SeekableAsset>Tap<A>::from_asset props C10 C12 C15
+//@ ret r
+//@ sig
+        // a freshly inserted tape: stopped, at the position the asset is at, no block selected
+        ensures r is Ok, r->Ok_0.sm_wf(), !r->Ok_0.playing(), r->Ok_0.resume() == TapeState::Stop,
+            r->Ok_0.asset == asset, r->Ok_0.current_block_size is None, !r->Ok_0.tape_ended,
+            r->Ok_0.delay == 0, !r->Ok_0.curr_bit,
+//@ end
+
 //@ fn rustzx-core/src/zx/tape/tap.rs impl <A:LoadableAsset+SeekableAsset>TapeImplforTap<A>::next_block_byte props C10 C11 C15
 //@ ret r
 //@ sig
